@@ -28,8 +28,8 @@ CAUSES = {
     "connecting": ["refused", "local_close", "never"],
     "cer_sent": ["peer_eof", "peer_rst", "local_close", "non_cea", "local_close_cross_cea"],
     "accepted_no_cer": ["peer_eof", "peer_rst"],
-    "open_idle": ["local_close", "peer_dpr", "peer_eof", "peer_rst"],
-    "open_traffic": ["local_close", "peer_dpr", "peer_eof", "peer_rst"],
+    "open_idle": ["local_close", "peer_dpr", "peer_eof", "peer_rst", "peer_dpr_then_rst"],
+    "open_traffic": ["local_close", "peer_dpr", "peer_eof", "peer_rst", "peer_dpr_then_rst"],
     "open_parked": ["local_close", "peer_dpr", "peer_eof", "peer_rst"],
     "open_backlog": ["local_close", "local_close", "peer_dpr", "peer_eof", "peer_rst"],
     "closing": ["peer_eof", "peer_rst", "peer_dpa_late", "peer_dpr_cross"],
@@ -76,6 +76,11 @@ class C08(Check):
                     "thread": rng.choice(["psm_thread", "transport_layer_thread", "recv_message_monitor"]),
                     "k": (index // 2) % 400 if tier == "thorough" else rng.randrange(0, 400)},
                 "traffic_in": rng.choice([1, 3, 6]), "traffic_out": rng.choice([0, 2, 5]),
+                "rst_gap": rng.choice([0.0, 0.0005, 0.003, 0.02, 0.08]),
+                "write_stall": rng.choice([0.0, 0.0, 0.05, 0.3]),
+                # restart the same object the moment it reports Closed (as Diameter.context() does),
+                # instead of waiting until every resource has been seen released
+                "eager_restart": rng.random() < 0.5,
                 # a consumer that ENTERS get_message() while the connection is going down, descheduled
                 # for a while within its first steps (the window between its checks and its wait)
                 "late_consumer": None if rng.random() < 0.6 else {
@@ -88,7 +93,11 @@ class C08(Check):
                 "restart": True, "watchdog": 30, "horizon": 90.0}
 
     def shrink(self, scn):
-        for k, v in (("cause_delay", 0.0), ("traffic_in", 1), ("traffic_out", 0)):
+        if scn.get("eager_restart"):
+            c = copy.deepcopy(scn)
+            c["eager_restart"] = False
+            yield c
+        for k, v in (("cause_delay", 0.0), ("traffic_in", 1), ("traffic_out", 0), ("rst_gap", 0.0), ("write_stall", 0.0)):
             if scn.get(k) != v:
                 c = copy.deepcopy(scn)
                 c[k] = v
@@ -139,7 +148,7 @@ class C08(Check):
         knobs = w.world.knobs
         tick = knobs["STATE_MACHINE_TICKER"]
         D = knobs["SLEEP_TIMER"] + 2 * knobs["TRACKING_SOCKET_EVENTS_TIMEOUT"] + 1.0 + 60 * tick + \
-            net.get("connect_timeout", 0.4) + 0.5 + 200000 * sim.quantum
+            net.get("connect_timeout", 0.4) + 0.5 + 200000 * sim.quantum + scn.get("write_stall", 0.0) + scn.get("rst_gap", 0.0)
         violations = []
         st = {"reached_point": False, "cause_applied_at": None, "restart_open": None}
         sig_ctx = "%s/%s/%s" % (mode.lower(), point, cause)
@@ -290,6 +299,18 @@ class C08(Check):
                     w.peer.send(C.cea(PEER_HOST, PEER_REALM, hbh=cers[-1]["hbh"], e2e=cers[-1]["e2e"]))
             elif cause == "peer_dpr":
                 w.peer.send(C.dpr(PEER_HOST, PEER_REALM, hbh=0x77, e2e=0x88))
+            elif cause == "peer_dpr_then_rst":
+                # the peer announces the disconnect and is gone before our DPA can be written
+                w.peer.b["answer_dpr"] = False
+                if scn.get("write_stall"):
+                    # the peer has stopped reading: our DPA cannot leave before the reset arrives
+                    w.net.stall_writes(w.peer.sock.peer, scn["write_stall"])
+                w.peer.send(C.dpr(PEER_HOST, PEER_REALM, hbh=0x7a, e2e=0x8b))
+                gap = scn.get("rst_gap", 0.0)
+                if gap:
+                    sim.after(gap, lambda: w.peer.close(reset=True))
+                else:
+                    w.peer.close(reset=True)
             elif cause == "peer_eof":
                 w.peer.close()
             elif cause == "peer_rst":
@@ -321,6 +342,42 @@ class C08(Check):
                 # reported Closed at that instant: the caller was told, no cause was applied
                 st["reached_point"] = False
                 st["note"] = "close() refused by the restart guard: no termination cause applied"
+                return
+            eager = None
+            if scn.get("eager_restart") and scn.get("restart") and cause not in ("local_close", "local_close_cross_cea"):
+                old_threads = list(w.lib_threads())
+                old_socks = list(w.node_socks())
+                if sim.wait_until(lambda: w.state() == "Closed" and st["state_at_cause"] != "Closed" or
+                                  (w.state() == "Closed" and all(t.state == "done" for t in old_threads)), D, poll=0.0005):
+                    w.peer.b.update({"answer_cer": "valid", "answer_dpr": True})
+                    w.net.cfg.connect_outcome = "ack"
+                    w.net.cfg.connect_delay = (0.0005, 0.004)
+                    w.auto_peer_cer = True
+                    w.cer_ids = (0x113, 0x224)
+                    rec = w.start_node()
+                    eager = {"rec": rec, "old_threads": old_threads, "old_socks": old_socks}
+                    sim.probe("eager_restart")
+            if eager is not None:
+                ok = w.wait_state(("I-Open", "R-Open"), 10.0 + D)
+                st["restart_open"] = ok
+                if not ok:
+                    viol("the same node object can be started again", "eager-restart-failed",
+                         {"state": w.state(), "start_call": {"ok": eager["rec"]["ok"], "exc": eager["rec"]["exc"]},
+                          "listeners": [repr(a) for a in w.net.listeners],
+                          "threads": [(t.role, t.state, repr(t.wait_on)) for t in w.lib_threads() if t.state != "done"][:8]})
+                # the old connection's workers get their full D to notice the stop
+                sim.wait_until(lambda: all(t.state == "done" for t in eager["old_threads"]) and
+                               all(s_.state == "closed" and not s_.selectors for s_ in eager["old_socks"]),
+                               max(0.0, st["cause_applied_at"] + D - sim.now) + 0.05, poll=D / 60.0)
+                alive = [(t.role, t.state, repr(t.wait_on)) for t in eager["old_threads"] if t.state != "done"]
+                if alive:
+                    viol("all of its worker threads terminate", "threads-alive", {"threads": alive, "state": w.state(), "eager": True})
+                open_socks = [(s_.name, s_.state, len(s_.selectors)) for s_ in eager["old_socks"] if s_.state != "closed" or s_.selectors]
+                if open_socks:
+                    viol("releases its sockets", "sockets-open", {"sockets": open_socks, "eager": True})
+                if consumer is not None and consumer["t1"] is None:
+                    viol("application calls blocked waiting for a message return", "consumer-stuck",
+                         {"thread_state": consumer["thread"].state, "wait_on": repr(consumer["thread"].wait_on), "eager": True})
                 return
             # ---- oracle: within D ---------------------------------------------
             def released():
